@@ -768,10 +768,14 @@ export class ProcGenWrapper {
             const firstIndex = slotNodes[0]!.parentIndex
             const lastIndex = slotNodes.findLast((node) => node.parentNode === elem)!.parentIndex
             if (r !== firstIndex) {
-              if (l >= 0) elem.removeChildren(l, r - l)
-              l = firstIndex
+              // the indexes were read before this removal: what follows moves up by the removed count
+              const count = r - l
+              if (count > 0) elem.removeChildren(l, count)
+              l = firstIndex - count
+              r = lastIndex + 1 - count
+            } else {
+              r = lastIndex + 1
             }
-            r = lastIndex + 1
           }
           if (l !== r) elem.removeChildren(l, r - l)
         },
